@@ -98,3 +98,54 @@ package index
 //@   before With requires arg1 == cacheName && !arg2
 //@   ensures ncalls(With) == 1
 
+
+// ---- from a point change to the per-index changes (properties C02, C03, C04, C05) ----
+// What each index is told about a changed point: the previous and the current value of ITS
+// property, decoded from the previous / new document; a property absent on both sides is skipped,
+// present only now is an insert, present only before a delete, present on both an update. The
+// typed change handed to an inverted, text or vector index carries the point's node id and exactly
+// those two values (absent stays absent); a value of the wrong type is an error, never a guess.
+//@ func getOperation
+//@   property C02 C03 C04 C05
+//@   ensures err == nil ==> prevProp == callres(getPropertyFromBytes, 1, 0) && callarg(getPropertyFromBytes, 1, 1) == prevData && callarg(getPropertyFromBytes, 1, 2) == propertyName
+//@   ensures err == nil ==> currentProp == callres(getPropertyFromBytes, 2, 0) && callarg(getPropertyFromBytes, 2, 1) == currentData && callarg(getPropertyFromBytes, 2, 2) == propertyName
+//@   ensures err == nil ==> (op == "skip") == (prevProp == nil && currentProp == nil)
+//@   ensures err == nil ==> (op == "insert") == (prevProp == nil && currentProp != nil)
+//@   ensures err == nil ==> (op == "delete") == (prevProp != nil && currentProp == nil)
+//@   ensures err == nil ==> (op == "update") == (prevProp != nil && currentProp != nil)
+
+//@ func preProcessInverted
+//@   property C02
+//@   allocates
+//@   ensures err == nil ==> !skip && invChange.Id == change.nodeId
+//@   ensures err == nil ==> (invChange.PreviousData == nil) == (change.oldData == nil) && (invChange.CurrentData == nil) == (change.newData == nil)
+//@   ensures err == nil && change.oldData != nil ==> isdyn(change.oldData, T) && (*invChange.PreviousData == dyn(change.oldData, T) || dyn(change.oldData, T) != dyn(change.oldData, T))
+//@   ensures err == nil && change.newData != nil ==> isdyn(change.newData, T) && (*invChange.CurrentData == dyn(change.newData, T) || dyn(change.newData, T) != dyn(change.newData, T))
+
+//@ func preProcessInvertedArray
+//@   property C02
+//@   allocates
+//@   ensures err == nil ==> !skip && invChange.Id == change.nodeId && invChange.PreviousData == callres(castDataToArray, 1, 0) && invChange.CurrentData == callres(castDataToArray, 2, 0)
+//@   ensures callarg(castDataToArray, 1, 0) == change.oldData && (ncalls(castDataToArray) == 2 ==> callarg(castDataToArray, 2, 0) == change.newData)
+//@   ensures err == nil ==> ncalls(castDataToArray) == 2 && callres(castDataToArray, 1, 1) == nil && callres(castDataToArray, 2, 1) == nil
+
+//@ func preProcessVamana
+//@   property C03 C04
+//@   allocates
+//@   ensures !skip && vc.Id == change.nodeId && vc.Vector == callres(castDataToArray, 1, 0) && err == callres(castDataToArray, 1, 1) && callarg(castDataToArray, 1, 0) == change.newData
+
+//@ func preProcessText
+//@   property C05
+//@   ensures err == nil ==> !skip && doc.Id == change.nodeId
+//@   ensures err == nil && change.newData != nil ==> isdyn(change.newData, string) && doc.Text == dyn(change.newData, string)
+//@   ensures err == nil && change.newData == nil ==> doc.Text == ""
+
+//@ func castDataToArray
+//@   property C02 C03 C04
+//@   safety -overflow
+//@   allocates
+//@   pure
+//@   ensures data == nil ==> result1 == nil && len(result0) == 0
+//@   ensures data != nil && result1 == nil ==> isdyn(data, []any) && len(result0) == len(dyn(data, []any)) && forall(k, 0, len(result0), isdyn(dyn(data, []any)[k], T))
+//@   loop 1 invariant rangeindex >= -1 && rangeindex < len(anyArr) && len(vector) == len(anyArr)
+//@   loop 1 invariant forall(k, 0, rangeindex+1, isdyn(anyArr[k], T))
